@@ -247,9 +247,11 @@ def install(mods):
             c = {}
             for e in exprs:
                 d = getattr(e, 'data', None)
+                arity = {'declare-const': 3, 'declare-fun': 4,
+                         'define-fun': 5}
                 if isinstance(d, tuple) and len(d) >= 2 and \
-                        isinstance(d[0].data, str) and d[0].data in (
-                            'declare-const', 'declare-fun', 'define-fun') \
+                        isinstance(d[0].data, str) and \
+                        arity.get(d[0].data) == len(d) \
                         and isinstance(d[1].data, str):
                     c[d[1].data] = c.get(d[1].data, 0) + 1
             return c
